@@ -23,6 +23,15 @@ func (m *machine) Next(t *rapid.T) fop {
 	if !m.planDrawn {
 		m.planDrawn = true
 		m.burstPlan = rapid.IntRange(0, 6).Draw(t, "burstPlan") == 0
+		m.cpoolPlan = rapid.IntRange(0, 4).Draw(t, "communityPoolPlan") == 0
+		// one history in four starts with a parameter change, so that its pools are created under changed parameters
+		if rapid.IntRange(0, 3).Draw(t, "paramsFirst") == 0 {
+			return m.genParams(t)
+		}
+	}
+	if m.cpoolPlan && m.cpoolDone < 2 && len(m.pools) < maxPools+1 && rapid.IntRange(0, 3).Draw(t, "communityPoolNow") == 0 {
+		m.cpoolDone++
+		return m.genCommunityPool(t)
 	}
 	if m.burstPlan && !m.bursted && len(m.pools) < maxPools && rapid.IntRange(0, 2).Draw(t, "burstNow") == 0 {
 		m.bursted = true
@@ -51,6 +60,8 @@ func (m *machine) Next(t *rapid.T) fop {
 			return m.genCreate(t)
 		}
 		return m.genBlock(t)
+	case k < 5:
+		return m.genParams(t)
 	case k < 20:
 		return m.genBlock(t)
 	case k < 94:
@@ -174,7 +185,53 @@ func (m *machine) genBlock(t *rapid.T) fop {
 		m.target = b.pool
 		return fop{K: "block", N: int(b.n)}
 	}
+	// one plain block step in eight is a restart: the farm module goes through its own genesis at the new height
+	if len(m.pools) > 0 && rapid.IntRange(0, 7).Draw(t, "restart") == 0 {
+		return fop{K: "restart"}
+	}
 	return fop{K: "block", N: rapid.SampledFrom([]int{1, 1, 1, 1, 1, 1, 2, 2, 3, 6}).Draw(t, "n")}
+}
+
+// genParams draws a farm parameter change: fees and tax rates whose product is fractional, a fee of 0 or 1, other
+// fee denoms, fewer / more reward categories (also below the rule count of existing pools), invalid tax rates and
+// a sender that is not the authority (both must be refused).
+func (m *machine) genParams(t *rapid.T) fop {
+	o := fop{K: "params"}
+	o.Fee = rapid.SampledFrom([]string{"5001", "5000", "5000", "1", "0", "7", "4999", "999983", "12345678901234567891"}).Draw(t, "fee")
+	o.FeeD = rapid.SampledFrom([]string{"stake", "stake", "stake", "usdt", "eth", "ethx"}).Draw(t, "feeDenom")
+	o.Tax = rapid.SampledFrom([]string{"0.4", "0.4", "0.3333", "0.5", "0.25", "0.1", "0.7", "0.000000000000000001", "0.999999999999999999",
+		"0.333333333333333333", "0", "1", "1.5", "-0.1"}).Draw(t, "tax")
+	o.MaxRD = rapid.SampledFrom([]int{2, 2, 2, 1, 1, 3, 3, 0}).Draw(t, "maxCategories")
+	if rapid.IntRange(0, 19).Draw(t, "notAuthority") == 0 {
+		o.Who = strangerID
+	}
+	return o
+}
+
+// genCommunityPool draws a farm pool funded out of the community pool (short-lived, so that it ends inside or soon
+// after the history; budgets mostly not a multiple of the rate, so that something remains to be handed back).
+func (m *machine) genCommunityPool(t *rapid.T) fop {
+	o := fop{K: "cpool", Lpt: rapid.IntRange(0, 1).Draw(t, "clpt")}
+	o.Route = rapid.SampledFrom([]string{"handler", "handler", "handler", "handler", "handler", "handler", "refund", "refund", "genesis"}).Draw(t, "route")
+	nd := rapid.SampledFrom([]int{1, 1, 2}).Draw(t, "cdenoms")
+	o.Edit = nd == 2 && rapid.Bool().Draw(t, "selfBond")
+	perm := rapid.Permutation([]string{"eth", "usdt", "point", "stake", "ethx"}).Draw(t, "cperm")
+	life := rapid.IntRange(5, 20).Draw(t, "clife")
+	for i := 0; i < nd; i++ {
+		rate := m.rateAmount(t, "crate")
+		l := life
+		if i > 0 {
+			l = rapid.IntRange(5, 25).Draw(t, "clife2")
+		}
+		total := new(big.Int).Mul(rate, big.NewInt(int64(l)))
+		if rapid.IntRange(0, 3).Draw(t, "crem") > 0 && rate.Cmp(big.NewInt(1)) > 0 {
+			total.Add(total, new(big.Int).Quo(rate, big.NewInt(2)))
+		}
+		o.Denoms = append(o.Denoms, perm[i])
+		o.Rates = append(o.Rates, rate.String())
+		o.Totals = append(o.Totals, total.String())
+	}
+	return o
 }
 
 func (m *machine) amount(t *rapid.T, label string, bits uint) *big.Int {
@@ -264,6 +321,14 @@ func (m *machine) genBurst(t *rapid.T) fop {
 	return o
 }
 
+// creatorUser: who sends creator operations (nobody can sign for the community pool: U0 tries and must be refused).
+func creatorUser(p *mpool) int {
+	if p.creator < 0 {
+		return 0
+	}
+	return p.creator
+}
+
 // genPoolOp draws a farmer or creator operation on pool idx.
 func (m *machine) genPoolOp(t *rapid.T, idx int, kind string) fop {
 	p := m.pools[idx]
@@ -351,9 +416,9 @@ func (m *machine) genPoolOp(t *rapid.T, idx int, kind string) fop {
 		}
 		return fop{K: "harvest", Who: who, Pool: idx}
 	case "destroy":
-		return fop{K: "destroy", Who: p.creator, Pool: idx}
+		return fop{K: "destroy", Who: creatorUser(p), Pool: idx}
 	default: // adjust
-		o := fop{K: "adjust", Who: p.creator, Pool: idx}
+		o := fop{K: "adjust", Who: creatorUser(p), Pool: idx}
 		any := false
 		for i, r := range p.rules {
 			rateS, topS := "", ""
